@@ -405,6 +405,11 @@ func (fc *followerController) append(req *proto.Append, stream proto.OxiaLogRepl
 	fc.Lock()
 	defer fc.Unlock()
 
+	if fc.wal == nil {
+		// The controller was closed while this stream was still delivering entries
+		return constant.ErrAlreadyClosed
+	}
+
 	if req.Term != fc.term {
 		return constant.ErrInvalidTerm
 	}
